@@ -175,6 +175,9 @@ def run(ctx):
         for shape in ARRAY_SHAPES[len(st["v0"])]:
             for cplx in (False, True):
                 x = np.array(st["v0"], dtype=np.complex128 if cplx else np.float64).reshape(shape) * ((0.6 + 0.8j) if cplx else 1.0)
+                if len(shape) >= 2 and min(shape) > 1 and not cplx:
+                    x = np.asfortranarray(x)               # the caller's image in column-major order (real runs), C order (complex runs)
+                x_caller = x
                 try:
                     alg = sp.alg.PowerMethod(lambda v: (A @ v.ravel()).reshape(shape), x, max_iter=st["k"])
                     ests = []
@@ -188,6 +191,8 @@ def run(ctx):
                                                        "PowerMethod on a %s %s iterate raised %r" % (shape, "complex" if cplx else "real", e), {}))
                     continue
                 key = {"kind": "power_estimate", "A": [list(x_) for x_ in st["A"]], "v0": list(st["v0"]), "k": st["k"], "shape": shape}
+                if alg.x is not x_caller and not np.array_equal(alg.x, x_caller):
+                    r.violations.append(core.Violation(["C15"], "espirit", dict(key, kind="power_held"), "PowerMethod (iterate of shape %s): the caller's array does not hold the vector the algorithm holds" % (shape,), {}))
                 if len(ests) != st["k"] or abs(ests[-1] ** 2 - want) > 1e-10 * max(1.0, want):
                     r.violations.append(core.Violation(["C15"], "espirit", key, "PowerMethod (iterate of shape %s, %s) max_eig^2 after %d updates = %s, exact %.12g" % (shape, "complex" if cplx else "real", st["k"], ests[-1] ** 2 if ests else None, want), {}))
                 if any(b < a - 1e-12 for a, b in zip(ests[1:], ests[2:])) or any(e > st["lmax"] + 1e-9 for e in ests[1:]):
